@@ -100,7 +100,7 @@ def declare(reg):
         exc_ensures={"idling-restored": "self.idling == old(self.idling)"},
         modifies=["self.idling", "self.pending_notifications", "ClientProxy.g_out", "*.pending_notifications", "IMAPClientCommand.completed",
                   "Mailbox.msg_keys", "Mailbox.uids", "Mailbox.num_msgs", "Mailbox.num_recent", "Mailbox._msg_key_to_idx", "Mailbox._uid_to_idx", "Mailbox.sequences",
-                  "Mailbox.optional_resync", "MH.g_keys", "MH.g_seqs", "Mailbox.g_db_exists", "Mailbox.g_db_uid_vv", "Mailbox.g_db_next_uid", "Mailbox.g_db_uids",
+                  "Mailbox.optional_resync", "MH.g_keys", "MH.g_seqs", "Mailbox.g_db_seqs", "Mailbox.g_db_exists", "Mailbox.g_db_uid_vv", "Mailbox.g_db_next_uid", "Mailbox.g_db_uids",
                   "Mailbox.g_db_msg_keys", "Mailbox.g_db_subscribed", "Mailbox.g_db_num_msgs"],
         ghost={"call_asserts": {"expunge": {
             # C05 / C15 (f): UID EXPUNGE restricts to exactly the UIDs of the resolved positions; plain EXPUNGE passes no restriction
